@@ -79,13 +79,13 @@ def config_toml(updir: str, docroot: str, cfg: dict) -> str:
     return "\n".join(lines) + "\n"
 
 
-def make_handler(base: str, cfg: dict, via: str = "ctor"):
+def make_handler(base: str, cfg: dict, via: str = "ctor", up: str | None = None):
     """the upload handler for configuration `cfg`, built the way `via` says:
     ctor    FileUploadHandler(...) called directly
     config  ServerConfig(...).get_upload_handler()                    (what `nauyaca serve` does with its options)
     toml    ServerConfig.from_toml(<file>).get_upload_handler()       (what `nauyaca serve --config` does)"""
     hm = T.patch_handler_module()
-    updir = os.path.join(base, UP)
+    updir = os.path.join(base, up or UP)
     if via == "ctor":
         return hm.FileUploadHandler(upload_dir=updir, max_size=cfg["max"], allowed_types=cfg["types"],
                                     auth_tokens=set(cfg["tokens"]) if cfg["tokens"] is not None else None, enable_delete=cfg["delete"])
@@ -153,6 +153,7 @@ def run_proto(base: str, case: dict) -> str:
 
     stall = case.get("stall")
     timing = case.get("timing")
+    hangup = case.get("hangup")       # None | k: the peer closes the connection k loop passes after its last piece was delivered
 
     class Chain:
         """a middleware chain that takes its time (a rate limiter's store, a certificate look-up, an access log on a slow disk)
@@ -183,6 +184,12 @@ def run_proto(base: str, case: dict) -> str:
                     loop.advance(timing["lead"] / 4)
                     await settle()
             proto.data_received(ch)
+            if hangup is not None and i == len(chunks) - 1:
+                # the peer does not wait for the answer: it closes right after its last piece (the chain / the upload task may
+                # still be queued); nothing can be delivered to it any more, but whatever is stored must be what it sent
+                await settle(hangup)
+                proto.connection_lost(None)
+                lost.append(True)
             await settle()
         if timing:
             # time passes (in half-second steps) until the chain and the handler have certainly finished and every timer has fired
@@ -194,8 +201,10 @@ def run_proto(base: str, case: dict) -> str:
             if tr.closed:
                 break
             await asyncio.sleep(0)
-        proto.connection_lost(None)
+        if not lost:
+            proto.connection_lost(None)
 
+    lost: list = []
     T.set_fault(case.get("fault"), case.get("tag", TAG))
     try:
         if stall is None and not timing:
@@ -239,6 +248,27 @@ def declared_sizes(line: str) -> list[int]:
     return out
 
 
+def denoted(base: str, up: str, line: str):
+    """what the path of the request line denotes according to the operating system (relative to `base`), if that lies inside
+    the upload directory `up`; None otherwise"""
+    try:
+        from nauyaca.protocol.request import TitanRequest
+
+        p = TitanRequest.from_line(line).path
+        full = os.path.realpath(os.path.join(base, up, p.lstrip("/")))
+        for _ in range(8):          # realpath (non-strict) can stop short of a fixpoint: iterate
+            nxt = os.path.realpath(full)
+            if nxt == full:
+                break
+            full = nxt
+        root = os.path.realpath(os.path.join(base, up))
+        if full == root or full.startswith(root + "/"):
+            return os.path.relpath(full, base)
+    except Exception:
+        pass
+    return None
+
+
 class UploadFamily(Family):
     mode = "direct"
 
@@ -269,7 +299,10 @@ class UploadFamily(Family):
                 rel = None
             status = run_direct(base, case) if self.mode == "direct" else run_proto(base, case)
             after = T.snapshot(base)
-            return {"status": status, "diff": T.diff(before, after), "denotes": rel}
+            obs = {"status": status, "diff": T.diff(before, after), "denotes": rel}
+            if case.get("hangup") is not None:
+                obs["hung"] = True
+            return obs
         finally:
             shutil.rmtree(base, ignore_errors=True)
 
@@ -337,10 +370,20 @@ class UploadFamily(Family):
     # ---- the property, evaluated directly ---------------------------------------------------
     def oracle(self, case, obs):
         diff, status = obs["diff"], obs["status"]
-        before = T.sim_build(case["tree"])
+        before = obs["before"] if "before" in obs else T.sim_build(case["tree"])
+        up = case.get("up", UP)          # the upload directory of the handler that got the request
         line, cfg = case["line"], case["cfg"]
         buf = bytes.fromhex(case["content"])
         desc = f"{line!r} (status {status}, fault {case.get('fault')})"
+        if case.get("hangup") is not None:
+            desc += (f" [the peer closed the connection {case['hangup']} loop passes after its last piece ({len(buf)} content bytes sent in all) "
+                     f"without waiting for the answer]")
+            if status == "pending":
+                # no answer could be delivered. The request was either not carried out (no change at all) or it was carried out:
+                # then everything the property says about a carried-out request holds - guarded, the one target, exactly the bytes sent
+                if not diff:
+                    return None
+                status = "20"
         if case.get("fault") and case["fault"][0] == "fsize":
             desc += f" [storage has room for {case['fault'][1]} bytes of the file: the kernel stores those and reports a short count]"
         if case.get("via", "ctor") != "ctor":
@@ -349,7 +392,7 @@ class UploadFamily(Family):
             tm = case["timing"]
             desc += (f" [request complete {tm['lead']} s after the connection was made, middleware chain "
                      f"{'refuses' if tm.get('deny') else 'allows'} after {tm['mw']} s]")
-        outside = [d for d in diff if not (d[1] == UP or d[1].startswith(UP + "/"))]
+        outside = [d for d in diff if not (d[1] == up or d[1].startswith(up + "/"))]
         if outside:
             return ("outside-upload-dir", f"{desc} changed something outside the upload directory: {outside[:3]!r}")
         def tmpname(p):
@@ -423,7 +466,8 @@ class UploadFamily(Family):
         blank = bool(case["cfg"]["tokens"]) and not any(t.strip() for t in case["cfg"]["tokens"])
         tm = case.get("timing")
         tms = "" if not tm else f" lead={int(tm['lead'])} mw={'<' if tm['lead'] + tm['mw'] < 30 else '>'}30{'deny' if tm.get('deny') else ''}"
-        return f"{self.mode} {obs['status']} {case.get('cls', '?')} fault={f[0] if f else '-'} diff={kind} via={case.get('via', 'ctor')}{' blanktok' if blank else ''}{tms}"
+        hs = "" if case.get("hangup") is None else f" hangup={case['hangup']}"
+        return f"{self.mode} {obs['status']} {case.get('cls', '?')} fault={f[0] if f else '-'} diff={kind} via={case.get('via', 'ctor')}{' blanktok' if blank else ''}{tms}{hs}"
 
 
 # ----------------------------------------------------------------------------------------------
@@ -794,6 +838,23 @@ class Proto(UploadFamily):
         for c in self.share(timed):
             yield c
             count += 1
+        # the peer closes the connection right after its last piece, without waiting for the answer: with no chain, with a chain
+        # that answers at once / after a while; the request in one piece or in several; the close 0, 1, 2 loop passes later
+        gone = []
+        for line, body in (("titan://h/a;size=7", hexs(b"NEWDATA")), ("titan://h/nd/x/f;size=7", hexs(b"NEWDATA")), ("titan://h/a;size=0", ""),
+                           ("titan://h/a;size=7", hexs(b"NEWDATA-and-more")), ("titan://h/sub/big;size=5000", hexs(bytes(range(250)) * 20))):
+            for tm in (None, {"lead": 0, "mw": 0, "deny": False}, {"lead": 0, "mw": 0.25, "deny": False}, {"lead": 10, "mw": 4.75, "deny": False},
+                       {"lead": 0, "mw": 0, "deny": True}):
+                for after in (0, 1, 2):
+                    for cuts in ([], [5, len(line) + 3]):
+                        c = {"tree": FIXED_TREE, "cfg": dict(OPEN, max=20000), "line": line, "content": body, "fault": None, "cls": "existing+fixed+hangup", "cuts": cuts,
+                             "hangup": after}
+                        if tm:
+                            c["timing"] = tm
+                        gone.append(c)
+        for c in self.share(gone):
+            yield c
+            count += 1
         while count < n:
             ents = gen_tree(rng)
             for _ in range(6):
@@ -825,6 +886,10 @@ class Proto(UploadFamily):
                     # request timeout), and the middleware chain in front of the upload handler takes `mw` seconds to answer
                     case["timing"] = {"lead": rng.choice(LEADS), "mw": rng.choice(CHAIN_DELAYS), "deny": rng.random() < 0.2}
                     case["cls"] += "+timed"
+                if case.get("stall") is None and rng.random() < 0.2:
+                    # the peer closes the connection a few loop passes after its last piece, whatever the state of the request
+                    case["hangup"] = rng.choice([0, 0, 0, 1, 2, 3])
+                    case["cls"] += "+hangup"
                 yield case
                 count += 1
 
@@ -845,9 +910,173 @@ class Proto(UploadFamily):
         e = super().expect(case, out)
         # (a request that was complete within the time limit is carried out however long the chain takes; one that never
         # becomes complete is answered 40 when the limit is reached)
-        if (case.get("stall") is not None or case.get("timing")) and e.get("status") == "pending":
+        if (case.get("stall") is not None or case.get("timing")) and e.get("status") == "pending" and case.get("hangup") is None:
             return {"status": "40", "diff": []}
         return e
 
+    def same(self, expected, obs):
+        if obs.get("hung") and "diff" in expected:
+            # the peer went away: the answer may or may not have been written before that; what happened to the files is unaffected
+            return expected.get("diff") == obs.get("diff") and obs.get("status") in (expected.get("status"), "pending")
+        return super().same(expected, obs)
 
-FAMILIES = [Direct(), Proto()]
+
+# ----------------------------------------------------------------------------------------------
+# several upload handlers in one process (one per host / user), each with its own upload directory and configuration
+# ----------------------------------------------------------------------------------------------
+TENANT_DIRS = ["uploads", "uploads-evil", "uploads/sub", "out", "uploads/sub/deep"]      # siblings, prefix-sharing siblings, nested
+TENANT_TREE = [["d", "uploads"], ["d", "uploads-evil"], ["d", "out"], ["d", "uploads/sub"], ["d", "uploads/sub/deep"],
+               ["f", "out/secret", hexs(b"SECRET")], ["f", "uploads-evil/e", hexs(b"EVIL")], ["f", "uploads/a", hexs(b"OLD-a")],
+               ["f", "uploads-evil/notes.gmi", hexs(b"OLD-notes-of-evil")], ["f", "uploads/notes.gmi", hexs(b"OLD-notes")],
+               ["f", "uploads/sub/n", hexs(b"OLD-n")], ["f", "uploads/sub/deep/z", hexs(b"OLD-z")], ["f", "out/notes.gmi", hexs(b"OLD-notes-out")]]
+TENANT_NAMES = ["notes.gmi", "a", "e", "n", "z", "secret", "new.txt", "nd/f"]
+
+
+def tenant_path(frm: str, to: str, name: str) -> str:
+    """the request path that - read lexically - leads from upload directory `frm` to `name` inside directory `to`"""
+    return "/" + "../" * (frm.count("/") + 1) + to + "/" + name
+
+
+class Tenants(UploadFamily):
+    """SEQUENCES of requests over two or more FileUploadHandler objects living in one process, with different (sibling, prefix-sharing,
+    nested) upload directories and different configurations, the requests alternating between them. Every request is judged by the
+    property against the upload directory and the configuration of the handler that received it, on snapshots of the whole area
+    taken before and after that request. (No model line: the Lean model is one handler, one request - covered by `direct`.)"""
+    name = "tenants"
+    mode = "direct"
+    quick_n = 400
+    thorough_n = 8000
+
+    def impl(self, case):
+        from nauyaca.protocol.request import TitanRequest
+
+        T.patch_handler_module()
+        base = tempfile.mkdtemp(prefix="nv-")
+        try:
+            T.build(base, case["tree"])
+            hs = [make_handler(base, h["cfg"], h.get("via", "ctor"), up=h["dir"]) for h in case["handlers"]]
+            steps = []
+            for st in case["steps"]:
+                up = case["handlers"][st["h"]]["dir"]
+                before = T.snapshot(base)
+                den = denoted(base, up, st["line"])
+                try:
+                    req = TitanRequest.from_line(st["line"])
+                    req.content = bytes.fromhex(st["content"])
+                    T.set_fault(None)
+                    try:
+                        status = str(asyncio.run(hs[st["h"]].handle_upload(req)).status)
+                    except Exception:
+                        status = "raised"
+                except ValueError:
+                    status = "badline"
+                steps.append({"status": status, "diff": T.diff(before, T.snapshot(base)), "denotes": den, "before": before})
+            return {"steps": steps}
+        finally:
+            shutil.rmtree(base, ignore_errors=True)
+
+    def model(self, case):
+        return None
+
+    def oracle(self, case, obs):
+        told = []
+        for st, o in zip(case["steps"], obs["steps"]):
+            h = case["handlers"][st["h"]]
+            one = {"tree": case["tree"], "cfg": h["cfg"], "up": h["dir"], "line": st["line"], "content": st["content"], "fault": None, "via": h.get("via", "ctor")}
+            v = super().oracle(one, o)
+            if v is not None:
+                dirs = [x["dir"] for x in case["handlers"]]
+                return (v[0], f"upload handlers for {dirs!r} in one process; after {told!r}, the handler of {h['dir']!r} "
+                              f"(max={h['cfg']['max']} tokens={h['cfg']['tokens']!r} types={h['cfg']['types']!r} delete={h['cfg']['delete']}) got {v[1]}")
+            told.append((h["dir"], st["line"], o["status"]))
+        return None
+
+    def key(self, case, obs):
+        sts = [o["status"] for o in obs["steps"]]
+        cross = sum(1 for st in case["steps"] if "/../" in st["line"])
+        changed = sum(1 for o in obs["steps"] if o["diff"])
+        return f"tenants handlers={len(case['handlers'])} steps={len(sts)} climbing={min(cross, 3)} changed={min(changed, 3)} last={sts[-1]}"
+
+    def shrink(self, case, bad):
+        cur = case
+        again = True
+        while again:
+            again = False
+            for i in range(len(cur["steps"])):
+                c2 = dict(cur, steps=cur["steps"][:i] + cur["steps"][i + 1:])
+                if c2["steps"] and bad(c2):
+                    cur, again = c2, True
+                    break
+        return cur
+
+    @staticmethod
+    def request(rng, hs, k, path, body=None):
+        """a request line for handler k of `hs` (its own token mostly; sometimes none, or the token of another handler)"""
+        cfg = hs[k]["cfg"]
+        if body is None:
+            body = rng.choice([b"", b"NEW", b"NEWDATA", b"NEWDATA-" + bytes(str(k), "ascii") * 3])
+        params = [f"size={len(body)}"]
+        if rng.random() < 0.3:
+            params.append("mime=" + rng.choice(["text/plain", "image/png"]))
+        r = rng.random()
+        if cfg["tokens"] and r < 0.8:
+            params.append("token=" + cfg["tokens"][0])
+        elif r < 0.9:
+            other = [t for h in hs for t in (h["cfg"]["tokens"] or []) if not cfg["tokens"] or t not in cfg["tokens"]]
+            if other:
+                params.append("token=" + rng.choice(other))
+        return {"h": k, "line": "titan://h" + path + ";" + ";".join(params), "content": hexs(body)}
+
+    def gen(self, rng, n):
+        count = 0
+        fixed = []
+        # a file is written (or removed, or just asked for) through its own handler; then another handler is asked for the very same file
+        for a, b in (("uploads-evil", "uploads"), ("uploads", "uploads-evil"), ("uploads", "uploads/sub"), ("uploads/sub", "uploads"), ("out", "uploads"),
+                     ("uploads/sub/deep", "uploads/sub"), ("uploads", "out")):
+            for name in ("notes.gmi", "fresh"):
+                for first in (7, 0):
+                    for second in (7, 0):
+                        hs = [{"dir": a, "cfg": OPEN}, {"dir": b, "cfg": OPEN}]
+                        steps = [{"h": 0, "line": f"titan://h/{name};size={first}", "content": hexs(b"NEWDAT1") if first else ""},
+                                 {"h": 1, "line": f"titan://h{tenant_path(b, a, name)};size={second}", "content": hexs(b"NEWDAT2") if second else ""},
+                                 {"h": 0, "line": f"titan://h/{name};size=7", "content": hexs(b"NEWDAT3")}]
+                        fixed.append({"tree": TENANT_TREE, "handlers": hs, "steps": steps})
+        for x in self.share(fixed):
+            yield x
+            count += 1
+        while count < n:
+            dirs = rng.sample(TENANT_DIRS, rng.choice([2, 2, 3, 4]))
+            hs = []
+            for i, d in enumerate(dirs):
+                hs.append({"dir": d, "via": rng.choice(VIAS),
+                           "cfg": {"max": rng.choice([100, 100, 2000, 8, 3]), "types": rng.choice([None, None, None, ["text/plain"], ["image/png"]]),
+                                   "tokens": rng.choice([None, None, [f"tok-{i}"], [f"tok-{i}", f"alt-{i}"]]), "delete": rng.random() < 0.6}})
+            tree = list(TENANT_TREE)
+            for _ in range(rng.randint(0, 3)):          # links between the directories
+                d = rng.choice(dirs)
+                tree.append(["l", d + "/" + rng.choice(["lk", "ln", "new.txt"]), rng.choice(["/" + x for x in TENANT_DIRS] + ["/out/secret", "/uploads-evil/e", "a", "nonexistent"])])
+            steps = []
+            for _ in range(rng.randint(2, 6)):
+                k = rng.randrange(len(hs))
+                r = rng.random()
+                name = rng.choice(TENANT_NAMES)
+                if r < 0.35 or not steps:
+                    path = "/" + name                                                  # its own file
+                elif r < 0.75:
+                    # a file some earlier step named, now asked of another handler (climbing out of its own directory if need be)
+                    prev = rng.choice(steps)
+                    pd = hs[prev["h"]]["dir"]
+                    pname = prev["line"][len("titan://h"):].split(";")[0].rsplit("/", 1)[-1] or name
+                    path = tenant_path(hs[k]["dir"], pd, pname)
+                    if pd.startswith(hs[k]["dir"] + "/") and rng.random() < 0.5:
+                        path = pd[len(hs[k]["dir"]):] + "/" + pname                     # ... or going down into a nested one (allowed)
+                elif r < 0.9:
+                    path = tenant_path(hs[k]["dir"], rng.choice(TENANT_DIRS), name)
+                else:
+                    path = rng.choice(["/lk", "/ln/" + name, "/lk/" + name, "/..", "/", "/../" + name])
+                steps.append(self.request(rng, hs, k, path))
+            yield {"tree": tree, "handlers": hs, "steps": steps}
+            count += 1
+
+
+FAMILIES = [Direct(), Proto(), Tenants()]
